@@ -1035,6 +1035,12 @@ class _GenerateRenderMethod:
                 if node.funcname in body_identifiers.closuredefs:
                     del body_identifiers.closuredefs[node.funcname]
 
+            def visitCallTag(s, node):
+                # the defs of a call nested in this one belong to that call
+                pass
+
+            visitCallNamespaceTag = visitCallTag
+
         vis = DefVisitor()
         for n in node.nodes:
             n.accept_visitor(vis)
